@@ -42,15 +42,18 @@ where
         let original_len = values.len();
         let mut filtered_indices = VecDeque::new();
 
-        let mut original_idx = 0;
-        values.retain(|val| {
-            let keep = filter(val);
-            if keep {
-                filtered_indices.push_back(original_idx);
-            }
-            original_idx += 1;
-            keep
-        });
+        // Not `Vector::retain`: in imbl 5.0 it keeps the wrong elements once a
+        // vector of more than one chunk has been shifted at the front.
+        values = values
+            .into_iter()
+            .enumerate()
+            .filter_map(|(original_idx, val)| {
+                filter(&val).then(|| {
+                    filtered_indices.push_back(original_idx);
+                    val
+                })
+            })
+            .collect();
 
         let inner = FilterImpl { inner, filtered_indices, original_len };
         (values, Self { inner, filter })
@@ -156,16 +159,19 @@ where
     where
         F: Fn(&VectorDiffContainerStreamElement<S>) -> bool,
     {
-        let mut original_idx = *self.original_len;
+        let offset = *self.original_len;
         *self.original_len += values.len();
-        values.retain(|value| {
-            let keep = f(value);
-            if keep {
-                self.filtered_indices.push_back(original_idx);
-            }
-            original_idx += 1;
-            keep
-        });
+        // Not `Vector::retain`, see `Filter::new`.
+        values = values
+            .into_iter()
+            .enumerate()
+            .filter_map(|(idx, value)| {
+                f(&value).then(|| {
+                    self.filtered_indices.push_back(offset + idx);
+                    value
+                })
+            })
+            .collect();
 
         values.is_empty().not().then_some(values)
     }
